@@ -141,6 +141,9 @@ func main() {
 		for i := 0; i < *n*3; i++ {
 			cases = append(cases, genMultiPath(r, "multipath-faults", true))
 		}
+		for i := 0; i < *n*4; i++ {
+			cases = append(cases, genMultiFaults(r))
+		}
 	case "C10":
 		cases = append(cases, fixedC10()...)
 		cases = append(cases, genC10(r, *n, *exhaustive)...)
